@@ -21,6 +21,7 @@ type Replay struct {
 	Inputs  map[string]interface{} `json:"inputs"`
 	Forks   []int                  `json:"forks"`
 	Tier    int                    `json:"tier"`
+	Repeat  int                    `json:"repeat,omitempty"`
 	// expectations recorded by the engine (samples)
 	Reached  []string            `json:"reached,omitempty"`
 	Observed []string            `json:"observed,omitempty"`
@@ -260,22 +261,51 @@ func ReplayMain(table map[string]func()) {
 			emit(res)
 			continue
 		}
-		my := st
-		done := make(chan struct{})
+		// a violation that depends on an engine-chosen schedule (Go map
+		// order) is confirmed by brute repetition: Go randomises the order
+		// on every range statement
+		repeats := 1
+		if st.rp.Label != "" && st.rp.Repeat > 1 {
+			repeats = st.rp.Repeat
+		}
+		var my *state
 		var panicked interface{}
-		go func() {
-			defer close(done)
-			defer func() {
-				if r := recover(); r != nil {
-					panicked = r
-				}
+		timedOut := false
+		for rep := 0; rep < repeats; rep++ {
+			Reset(st.rp)
+			my = st
+			panicked = nil
+			done := make(chan struct{})
+			go func() {
+				defer close(done)
+				defer func() {
+					if r := recover(); r != nil {
+						panicked = r
+					}
+				}()
+				fn()
 			}()
-			fn()
-		}()
-		select {
-		case <-done:
-		case <-timeAfter(20):
-			res.TimedOut = true
+			select {
+			case <-done:
+			case <-timeAfter(20):
+				timedOut = true
+			}
+			if timedOut || panicked != nil || len(my.Failures) > 0 {
+				break
+			}
+		}
+		res.TimedOut = timedOut
+		if false {
+			done := make(chan struct{})
+			go func() {
+				defer close(done)
+				fn()
+			}()
+			select {
+			case <-done:
+			case <-timeAfter(20):
+				res.TimedOut = true
+			}
 		}
 		if panicked != nil {
 			res.Panicked = fmt.Sprint(panicked)
